@@ -83,6 +83,7 @@ def run_check(pid, overlay, tier='quick'):
         from . import rules_axis
         rules_axis.MODEL = m
         rules_axis._RET_CACHE.clear()
+        rules_axis.DECLARED_RET.clear()
         rules_axis.scope_of.__defaults__[0].clear()
         mod.check(m, run)
     except model.AnalysisError as ex:
@@ -98,6 +99,7 @@ def restore_model():
     from . import rules_axis
     rules_axis.scope_of.__defaults__[0].clear()
     rules_axis._RET_CACHE.clear()
+    rules_axis.DECLARED_RET.clear()
 
 
 # ---------------------------------------------------------------------- benign edits
